@@ -3,6 +3,7 @@ pub mod c01;
 pub mod c02;
 pub mod c09;
 pub mod c18;
+pub mod lc;
 
 pub fn get(id: &str, tier: Tier) -> Option<PropertyDef> {
     match id {
@@ -10,6 +11,10 @@ pub fn get(id: &str, tier: Tier) -> Option<PropertyDef> {
         "C09" => Some(c09::def(tier)),
         "C18" => Some(c18::def(tier)),
         "C02" => Some(c02::def(tier)),
+        "C05" => Some(lc::c05(tier)),
+        "C06" => Some(lc::c06(tier)),
+        "C07" => Some(lc::c07(tier)),
+        "C08" => Some(lc::c08(tier)),
         _ => None,
     }
 }
